@@ -347,6 +347,18 @@ def run(prog, rep):
               witness="a.remove(<equal child of b>) silently drops a's own child")
     body = [s for s in rm.node.body if not (isinstance(s, ast.Expr) and isinstance(s.value, ast.Constant))]
     good = len(body) == 1 and isinstance(body[0], ast.Delete) and unparse(body[0].targets[0]) == "%s[%s.index(%s)]" % (rm.params[0], rm.params[0], rm.params[1])
+    if not good:
+        # `pos = self.index(obj); del self[pos]`
+        from ..symtext import Expander as _Ex
+        from ..cfg import build_cfg as _bc
+        rg = _bc(rm)
+        rx = _Ex(rm, rg)
+        dels = [n for n in rg.nodes if n.kind == "stmt" and isinstance(n.ast, ast.Delete)]
+        others = [n for n in rg.nodes if n.kind == "stmt" and not isinstance(n.ast, (ast.Delete, ast.Assign)) and
+                  not (isinstance(n.ast, ast.Expr) and isinstance(n.ast.value, ast.Constant))]
+        good = len(dels) == 1 and not others and len(dels[0].ast.targets) == 1 and isinstance(dels[0].ast.targets[0], ast.Subscript) \
+            and rx.text(dels[0].ast.targets[0].slice, dels[0]) == "%s.index(%s)" % (rm.params[0], rm.params[1]) \
+            and unparse(dels[0].ast.targets[0].value) == rm.params[0]
     rep.check(good, "IDENT-1", "SmartList.remove deletes self[self.index(obj)]", "ok",
               "SmartList.remove is `%s`: removal is no longer by identity" % "; ".join(unparse(s)[:60] for s in body), rm.where,
               witness="section.remove(clone_of_child) removes the real child, which keeps pointing to the section")
